@@ -285,6 +285,28 @@ impl<'a> KsModel<'a> {
         }
         out
     }
+    /// keystream bytes starting at byte `off` of block `blk` (for positions beyond 2^128 bytes)
+    pub fn ks_at(&self, blk: u128, off: usize, len: usize) -> Vec<u8> {
+        let bs = self.c.bs();
+        assert!(off < bs, "harness: offset inside a block");
+        let mut out = Vec::with_capacity(len);
+        let mut b = blk;
+        let mut o = off;
+        while out.len() < len {
+            let blkbytes = self.ks_block(b);
+            let take = (bs - o).min(len - out.len());
+            out.extend_from_slice(&blkbytes[o..o + take]);
+            o = 0;
+            if out.len() < len {
+                b = b.checked_add(1).expect("harness: block index overflow in the model");
+            }
+        }
+        out
+    }
+    pub fn apply_at(&self, blk: u128, off: usize, data: &[u8]) -> Vec<u8> {
+        let ks = self.ks_at(blk, off, data.len());
+        data.iter().zip(ks.iter()).map(|(a, b)| a ^ b).collect()
+    }
     pub fn apply(&self, pos: u128, data: &[u8]) -> Vec<u8> {
         let ks = self.ks_bytes(pos, data.len());
         data.iter().zip(ks.iter()).map(|(a, b)| a ^ b).collect()
